@@ -295,41 +295,38 @@ func pages(input OmegaInput) (output OmegaOutput) {
 		}
 	}
 
-	if r > 2 && !isReadable(p, c, input.Addition.IntegratedPVMMap[n].Memory) {
-		input.VM.Registers[7] = HUH
-		return OmegaOutput{
-			ExitReason: ExitContinue,
-			Addition:   input.Addition,
+	// otherwise if r > 2 and some page of N_p...+c is inaccessible
+	innerPages := input.Addition.IntegratedPVMMap[n].Memory.Pages
+	if r > 2 {
+		for i := uint32(p); i < uint32(p+c); i++ {
+			if page, mapped := innerPages[i]; !mapped || page.Access == MemoryInaccessible {
+				input.VM.Registers[7] = HUH
+				return OmegaOutput{
+					ExitReason: ExitContinue,
+					Addition:   input.Addition,
+				}
+			}
 		}
 	}
 
 	// otherwise : ok
-	// u_v
-	if r >= 3 {
-		for i := uint32(p); i < uint32(p+c); i++ {
-			input.Addition.IntegratedPVMMap[n].Memory.Pages[i] = &Page{
-				Value:  make([]byte, ZP),
-				Access: MemoryInaccessible,
-			}
-		}
-	}
-
-	// u_a
-	if r == 1 || r == 3 {
-		for i := uint32(p); i < uint32(p+c); i++ {
-			input.Addition.IntegratedPVMMap[n].Memory.Pages[i] = &Page{
-				Value:  make([]byte, ZP),
-				Access: MemoryReadOnly,
-			}
-		}
-	}
-
+	// u_a: 0 -> inaccessible, 1/3 -> read-only, 2/4 -> read-write
+	// u_v: zeroed for r < 3, unchanged for r = 3, 4
+	access := MemoryReadOnly
 	if r == 2 || r == 4 {
-		for i := uint32(p); i < uint32(p+c); i++ {
-			input.Addition.IntegratedPVMMap[n].Memory.Pages[i] = &Page{
+		access = MemoryReadWrite
+	}
+	for i := uint32(p); i < uint32(p+c); i++ {
+		switch {
+		case r == 0:
+			delete(innerPages, i)
+		case r < 3:
+			innerPages[i] = &Page{
 				Value:  make([]byte, ZP),
-				Access: MemoryReadWrite,
+				Access: access,
 			}
+		default:
+			innerPages[i].Access = access
 		}
 	}
 
